@@ -55,6 +55,11 @@ def jobs(tier, seed):
     # two data points in one clone
     for f in (Forest([[0, 1]], [None]), Forest([[0, 1], [2]], [None, 0]), Forest([[0], [1, 2], [3]], [None, None, 1])):
         out.append({"name": f"G{G}-D1-{f.describe()}", "blocks": f.blocks, "parent": f.parent, "G": G, "D": 1, "cost": 5})
+    # sibling clones with identical likelihood rows (bit-identical log_R): the content-hash caches see repeated keys
+    for f in (Forest([[0], [1], [2]], [2, 2, None]), Forest([[0], [1], [2], [3]], [3, 3, 3, None]), Forest([[0], [1], [2], [3]], [2, 2, None, None]),
+              Forest([[0], [1], [2]], [None, None, None])):
+        out.append({"name": f"G{G}-D1-twins-{f.describe()}", "blocks": f.blocks, "parent": f.parent, "G": G, "D": 1, "twins": True,
+                    "cost": len(f.blocks) ** 3})
     if tier == "thorough":
         for f in shapes_by_clone_count(4):
             out.append({"name": f"G4-D1-{f.describe()}", "blocks": f.blocks, "parent": f.parent, "G": 4, "D": 1,
@@ -124,6 +129,11 @@ def work(job):
 
     def run():
         dps = [sym_dp(i, D, G) for i in range(n)]
+        if job.get("twins"):
+            # all leaf clones share one symbolic likelihood row
+            leaves = [b[0] for i, b in enumerate(forest.blocks) if not forest.children(i)]
+            for x in leaves[1:]:
+                dps[x].value = dps[leaves[0]].value.copy()
         tree = forest.to_tree(dps, (D, G))          # incremental: every create_root_node updates the path to the root
         ok = _check_tree(tree, forest, dps, G, D, "incremental", res)
         if ok:
@@ -144,7 +154,7 @@ def work(job):
     res["twin_ok"] = (r == "sat")
     res["status"] = "cex" if res["cex"] else "ok"
     for c in res["cex"]:
-        c.update({"blocks": forest.blocks, "parent": forest.parent, "G": G, "D": D, "finding_key": "C02:marginal"})
+        c.update({"blocks": forest.blocks, "parent": forest.parent, "G": G, "D": D, "finding_key": "C02:marginal", "twins": bool(job.get("twins"))})
     res["sample"] = {"forest": forest.describe(), "G": G, "D": D, "identities": res["obligations"] // 2,
                      "largest_query_vars": n * D * G}
     return res
@@ -223,6 +233,10 @@ def replay(case):
     G, D = case["G"], case["D"]
     vals = case.get("values", {})
     dps = [float_dp(i, D, G, vals) for i in range(forest.n)]
+    if case.get("twins"):
+        leaves = [b[0] for i, b in enumerate(forest.blocks) if not forest.children(i)]
+        for x in leaves[1:]:
+            dps[x].value = dps[leaves[0]].value.copy()
     tree = forest.to_tree(dps, (D, G))
     if case.get("mode") == "full-update":
         tree.update()
